@@ -60,8 +60,8 @@ def psi4_132_factor(l, label):
 
 def vendor_allows(vendor, l, kind, fmt):
     """Shell types each vendor encoding is defined for."""
-    if l == 5 and (kind != "p" or fmt != "molden"):
-        return False  # iodata has no Cartesian h convention; MKL loader has no h at all
+    if l == 5 and kind != "p":
+        return False  # neither format has a Cartesian h convention in iodata (pure h: Molden [..] and MKL `11 H`)
     if l <= 1:
         return True
     if vendor == "orca":
